@@ -47,7 +47,7 @@ func VerifH_C06_sqlite_scan() {
 	n := symParam("keys", 4)
 	symAssert(vt.Begin() == nil, "begin-ok")
 	for k := 1; k <= n; k++ {
-		_, err := vt.Insert(symSQLInt(int64(k)), symSQLInt(int64(10*k)), symSQLNull())
+		_, err := vt.Insert(symSQLInt(int64(10*k)), symSQLInt(int64(100*k)), symSQLNull())
 		symAssert(err == nil, "insert-ok")
 	}
 	symAssert(vt.Sync() == nil, "sync-ok")
@@ -106,7 +106,10 @@ func VerifH_C06_sqlite_scan() {
 		_, bp, _ := symSQLResult(c1)
 		key, b := kp.(int64), bp.(int64)
 		keep := true
-		for _, cn := range cons { // SQLite re-checks every constraint (none is omitted)
+		for i, cn := range cons { // SQLite re-checks every constraint the table did not ask it to omit
+			if u := out.ConstraintUsage[i]; u != nil && u.ArgvIndex > 0 && u.Omit {
+				continue
+			}
 			if !vSQLSat(key, b, cn) {
 				keep = false
 			}
@@ -117,7 +120,8 @@ func VerifH_C06_sqlite_scan() {
 		symAssert(cur.Next() == nil, "next-ok")
 	}
 	var want []int64
-	for key := int64(1); key <= int64(n); key++ {
+	for kk := int64(1); kk <= int64(n); kk++ {
+		key := 10 * kk
 		keep := true
 		for _, cn := range cons {
 			if !vSQLSat(key, 10*key, cn) {
